@@ -11,14 +11,97 @@ LEVEL_NOTE = ("Trusted: Lean 4.33.0 kernel (leanchecker in the thorough tier); a
 
 CHECKS = {
     'C01': dict(
-        text="Theorems over the model: the greedy shift-reduce parser accepts every sentence of the documented grammar "
-             "(parse_complete), the tree it builds denotes the sentence with precedence ()>not>and>or for every valuation "
-             "(parse_denotes, decision), extra grouping never changes a decision (parens), constants. Unbounded in "
-             "expression size. Correspondence: exhaustive short token sequences + random sentences x layouts x all "
-             "assignments against the real parser and enforcer and against Spec.den.",
+        text="Theorems over the model, unbounded in expression size: the greedy shift-reduce parser accepts every sentence of "
+             "the documented grammar (parse_complete); the tree it builds denotes the sentence with precedence ()>not>and>or "
+             "for every valuation and the short-circuiting evaluator returns that value (parse_denotes, decision); every "
+             "layout - any whitespace run of str.isspace, keyword case, glued parentheses - of a sentence parses to the same "
+             "tree (lex_layout, layout_decision, layouts_agree); extra grouping never changes a decision (parens); constants. "
+             "Correspondence: all token sequences up to a bound + random sentences x layouts x all assignments, list-of-lists "
+             "shapes, against the real parser/enforcer and against Spec.den.",
         note="leaf semantics are C04/C05; str.lower/isspace are CPython's (tables re-extracted every run).",
-        technique="Lean 4 proof (simulation by mutual induction on the grammar) + differential correspondence",
+        technique="Lean 4 proof (simulation by mutual induction on the grammar; character-level lexer lemma) + differential correspondence",
         design="§7 C01"),
+    'C02': dict(
+        text="Theorems: the parser accepts only sentences (sound: stack invariant carrying grammar derivations), so any "
+             "non-sentence parses to ! and denies for every target/credentials (reject, text_fails_closed, text_denies, "
+             "text_total); a quoted-string token never occurs in a sentence; a colon-free check is !; every rule value that is "
+             "not a string or a list of strings / lists of strings denies (values_fail_closed and one corollary per JSON type). "
+             "Correspondence: all rejected token sequences up to a bound, one-token rules, random strings, corruptions, every "
+             "JSON/YAML value type through parse_rule, Rules.from_dict and Rules.load.",
+        note="yaml/json parsers are library behaviour.",
+        technique="Lean 4 proof (soundness invariant of the shift-reduce parser; case analysis on value types) + differential correspondence",
+        design="§7 C02"),
+    'C03': dict(
+        text="Theorems: a defined name is decided by its own definition (defined_decides); an undefined name by the usable "
+             "default rule, else deny, and deny on an empty rule set, never an exception of its own (undefined_decides); "
+             "allow_iff states the property as one equivalence, for all rule stores, default-rule settings, names and "
+             "credentials. Correspondence: the small-universe table against the real Enforcer and an oracle written from the statement.",
+        note="oslo.config option resolution is library behaviour.",
+        technique="Lean 4 proof (case analysis over the model of Rules.__missing__/enforce) + differential correspondence",
+        design="§7 C03"),
+    'C04': dict(
+        text="Theorem allow_iff: for every lower-casing function, target and credentials with a list of string roles, role:X "
+             "allows iff X after %(key)s substitution equals one of the roles under lower; missing key, no roles entry and "
+             "empty list deny; the check always returns a decision. Correspondence: generated names over ASCII/punctuation/"
+             "non-ASCII one-to-one-case letters, literal and placeholder forms, against the real RoleCheck.",
+        note="PARTIAL: Unicode case folding itself is str.lower (parameter of the theorem; table from the running interpreter in the driver).",
+        technique="Lean 4 proof (for all `lower`) + differential correspondence",
+        design="§7 C04"),
+    'C05': dict(
+        text="Theorems: find_iff - the recursive credential search equals declarative path matching (any element where the "
+             "path meets a list, string form at the end) by induction on the path for all nested values; allow_iff - the "
+             "generic check allows iff rhs after substitution equals the literal's string form or matches the path; missing "
+             "target key / attribute deny; never raises. Correspondence: literals of every kind and paths of depth 1..4 over "
+             "random nested credentials against the real GenericCheck and an oracle written from the statement.",
+        note="PARTIAL: ast.literal_eval and str() of containers/floats are CPython's (parameters of the theorem).",
+        technique="Lean 4 proof (induction on the path, for all `lit`) + differential correspondence",
+        design="§7 C05"),
+    'C06': dict(
+        text="Theorems: a reference evaluates as looking the name up exactly like enforce does (default fallback, deny for "
+             "unknown) and evaluating that definition (alias_is_definition, alias_transparent, undefined_denies); inlining a "
+             "definition for its reference anywhere in a body never changes a decision (inline_same_decision, via a "
+             "substitution lemma and fuel monotonicity of the evaluator); the enforced name is the one passed to every leaf. "
+             "Correspondence: acyclic rule graphs with alias chains to depth 9, undefined references, default rules; alias and "
+             "inlining checked on the real Enforcer; recording custom checks with 3/4-parameter signatures.",
+        note="PARTIAL: inspect.getfullargspec arity adaptation is Python reflection (exercised only).",
+        technique="Lean 4 proof (fuel monotonicity + substitution lemma) + differential correspondence",
+        design="§7 C06"),
+    'C07': dict(
+        text="Theorems for all rule stores/trees/credentials: on_from_off - the do_raise outcome is the do_raise-off outcome "
+             "with ret false replaced by InvalidScope (scope gate), the caller's exception, or PolicyNotAuthorized naming the "
+             "policy; falsy_iff_raises; allow_same (an allowed request never raises, do_raise never returns falsy); authorize "
+             "raises PolicyNotRegistered independent of rules/credentials for unregistered names and is enforce otherwise; "
+             "non-mapping credentials raise InvalidContextObject. Correspondence: generated scenarios x do_raise x custom "
+             "exception/args x name/check object x authorize x debug logging, with mutation probes.",
+        note="PARTIAL: side-effect freedom of the debug dump is strutils/jsonutils behaviour (exercised only).",
+        technique="Lean 4 proof (case analysis over the model of enforce) + differential correspondence",
+        design="§7 C07"),
+    'C08': dict(
+        text="Theorems for every scope-type list, rule store, tree and credentials: mismatch_denies (registered scope types, "
+             "enforcement on, token scope not listed -> False / InvalidScope whatever the stored check), "
+             "otherwise_check_decides, scope_from_registration (the rule store cannot influence the gate), check-object gate, "
+             "system_scope spelling. Correspondence: the complete finite table of the quantifier incl. three credential representations.",
+        note="PARTIAL: RequestContext.to_policy_values is oslo.context (exercised only).",
+        technique="Lean 4 proof (case analysis, unbounded in scope list and tree) + exhaustive correspondence table",
+        design="§7 C08"),
+    'C14': dict(
+        text="Theorems: leaf_decides - a role or generic leaf returns a decision for every classification of the left side by "
+             "literal_eval, every target and JSON-like credentials (string roles), well-formed placeholders; enforce_documented - "
+             "then enforce returns a decision or raises only documented exceptions (or exhausts fuel, excluded by C13), by "
+             "induction over trees and reference depth. Correspondence: hostile leaf alphabet x credentials/targets with every "
+             "JSON type at every position on the real Enforcer.",
+        note="PARTIAL: which exceptions ast.literal_eval can raise is CPython's; the repaired code treats every one as 'not a literal'.",
+        technique="Lean 4 proof (unreachability of raise outcomes, for all `lit`) + differential correspondence",
+        design="§7 C14"),
+    'C15': dict(
+        text="Theorems: fix - parse(print t) = t for every printable tree; parser_image_printable - every tree the text parser "
+             "produces is printable, hence roundtrip on every string; print_injective / same_print_same_decision; list-of-lists "
+             "rules with clean checks round-trip; rule-set dump/load is the identity entry by entry. Proved at character level "
+             "(the printer's text is a layout of printToks; tokenizer lemma) and token level (stack simulation). "
+             "Correspondence: expression-generator rules of every leaf kind, rule sets, RuleDefault equality.",
+        note="PARTIAL: jsonutils dumps/loads trusted.",
+        technique="Lean 4 proof (printer layout lemma + parser simulation) + differential correspondence",
+        design="§7 C15"),
 }
 
 NOT_YET = "no check built yet in this session (planned, see DESIGN.md §7); not claimed until its theorem and correspondence suite exist"
